@@ -235,8 +235,98 @@ def rule_template_reaches_cache(ctx, prog, an, rule, ca=None, only_adt=None):
                     rep = peel(an.op(b, s["rv"]["ops"][0]))
                     okp, _ = is_template_parse_payload(an, prog, rep, b, adt, field)
                     direct = rep[0] == "tfield" and rep[2] == 1 and rep[1][0] == "ok"
+                    if okp and direct and peel(rep[1][1])[0] == "call":
+                        no_rejection_between(ctx, an, rule, adt, field, b, w, peel(rep[1][1]))
                     ctx.ob(rule, adt, "reported-is-parsed:%s" % variant, bool(okp and direct),
                            "reported FlowSetBody::%s payload = %s" % (variant, canon(rep)[:200]), site=site(s["span"]))
+
+
+def no_rejection_between(ctx, an, rule, adt, field, b, w, pcall):
+    """Once the template records have parsed, nothing but the records themselves decides whether they are cached:
+    every branch after the parse from which the function can return without passing the cache write tests the
+    stored records only (IPFIX `is_valid(&template)`, an empty record list) - not the flowset's padding, the
+    remaining input, the id or the cache's current content."""
+    from ..slicer import walk
+    pk = pcall[1]
+
+    def is_payload(x):
+        x = peel(x)
+        while x[0] in ("ref", "deref"):
+            x = peel(x[1])
+        return x[0] == "tfield" and x[2] == 1 and x[1][0] == "ok" and peel(x[1][1])[0] == "call" and peel(x[1][1])[1] == pk and peel(x[1][1])[2] is pcall[2]
+
+    names, whole = set(), [False]
+
+    def fs(n):
+        if n[0] == "field" and is_payload(n[1]):
+            names.add(n[2])
+            return False
+        if is_payload(n):
+            whole[0] = True
+            return False
+        return True
+    for x in (w.get("val"), w.get("src"), w.get("key")):
+        if x is not None:
+            walk(x, fs)
+    # arguments of the helper call that performs the write
+    if w.get("via"):
+        t = b.term(w["block"])
+        for a in t.get("args", []):
+            walk(an.op(b, a), fs)
+    wb = w["block"]
+    start = b.term(pk).get("t")
+    if start is None:
+        return
+    region = b.reachable(start, without_blocks=(wb,))
+    rets = set(x for x in region if b.term(x)["k"] == "return")
+    if not rets:
+        ctx.ob(rule, adt, "no-rejection-between-parse-and-write:%s" % field, True, "no return is reachable after the template parse without passing the cache write", site=b.line(wb))
+        return
+    bad = []
+    nsw = 0
+    for x in sorted(region):
+        t = b.term(x)
+        if t["k"] != "switch":
+            continue
+        succ = [tb for _, tb in t["targets"]] + [t["otherwise"]]
+        def skips(tb):
+            r = b.reachable(tb, without_blocks=(wb,))
+            return any(y in rets for y in r) and not b.reaches(tb, wb) if False else any(y in rets for y in r)
+        to_w = [tb for tb in succ if tb == wb or b.reaches(tb, wb)]
+        only_skip = [tb for tb in succ if tb != wb and not b.reaches(tb, wb) and skips(tb)]
+        if not to_w or not only_skip:
+            continue
+        cond = peel(an.op(b, t["op"]))
+        core = cond
+        while core[0] in ("discr", "ok", "err", "some") or (core[0] == "call" and core[2] is not None and core[2].nsyn == "std::ops::Try::branch"):
+            core = peel(core[1] if core[0] != "call" else core[3][0])
+        if core[0] == "call" and core[1] == pk and core[2] is pcall[2]:
+            continue          # the `?` on the template parse itself
+        nsw += 1
+        leaves = []
+
+        def fl(n):
+            if n[0] == "field" and is_payload(n[1]):
+                if not (n[2] in names or whole[0]):
+                    leaves.append("the parsed flowset's `%s`" % n[2])
+                return False
+            if is_payload(n):
+                if not whole[0]:
+                    leaves.append("the whole parsed flowset")
+                return False
+            if n[0] == "tfield" and n[2] == 0 and n[1][0] == "ok":
+                leaves.append("the remaining input")
+                return False
+            if n[0] == "arg":
+                leaves.append("argument %d" % n[1])
+                return False
+            return True
+        walk(cond, fl)
+        if leaves:
+            bad.append((x, sorted(set(leaves))))
+    ctx.ob(rule, adt, "no-rejection-between-parse-and-write:%s" % field, not bad,
+           ("after the template records parsed, %s can return without caching them on a test of %s (%s): complete, well-formed records of that flowset are not learned" % (b.path, ", ".join(bad[0][1]), b.line(bad[0][0]))) if bad
+           else "%d branch(es) after the parse can skip the cache write; each tests the stored records only (stored: %s)" % (nsw, "the parsed value" if whole[0] else sorted(names)), site=b.line(bad[0][0]) if bad else b.line(wb))
 
 
 def rule_learned_in_stream_order(ctx, prog, ca, rid):
@@ -274,7 +364,7 @@ def rule_learned_in_stream_order(ctx, prog, ca, rid):
 def run(ctx, env):
     prog = env.prog("default")
     an = An(prog)
-    ctx.rule("R6.8", "every template that parses is written to the cache on every path to the reported result (no conditional / skipped write), and the template reported in the result is the parsed one")
+    ctx.rule("R6.8", "every template that parses is written to the cache on every path to the reported result (no conditional / skipped write), and the template reported in the result is the parsed one; after the records have parsed, only a test of the stored records themselves (IPFIX is_valid, an empty list) can keep them out of the cache - not the flowset padding, the remaining input, the id or the cache content")
     ctx.rule("R6.1", "every mutable access path to a cache map ends in insert / extend (or remove, see R6.6); no overwrite of parser state, no &mut parser to external code, no escaping map reference; shared accesses end in contains_key / get")
     ctx.rule("R6.2", "each write stores the Ok payload of a complete template-record parse of the function's own input under that value's template_id; IPFIX writes are dominated by is_valid()==true on the stored value")
     ctx.rule("R6.3", "each contains_key / get uses the wire id argument as key and a field of the function's own parser argument as receiver")
@@ -347,11 +437,35 @@ def run(ctx, env):
         _, recv = an.lift(b, an.op(b, t["args"][0]))
         _, key = an.lift(b, an.op(b, t["args"][1]))
         recv, key = peel(recv), peel(key)
-        base = peel(recv[1]) if recv[0] == "field" else None
-        own = base is not None and (base[0] == "arg" or (base[0] == "tfield" and peel(base[1])[0] == "arg"))
-        kok = key[0] == "arg" or (key[0] == "tfield" and peel(key[1])[0] == "arg")
-        ctx.ob("R6.3", b.path, "lookup:%s.%s" % (r["adt"].rsplit("::", 1)[1], r["field"]), bool(own and kok),
-               "receiver = %s, key = %s" % (canon(recv)[:120], canon(key)[:120]), site=b.line(r["block"]))
+
+        def strip(x):
+            x = peel(x)
+            while x[0] in ("ref", "deref"):
+                x = peel(x[1])
+            return x
+
+        def judge(recv, key):
+            recv, key = strip(recv), strip(key)
+            base = peel(recv[1]) if recv[0] == "field" else None
+            own = base is not None and (strip(base)[0] == "arg" or (strip(base)[0] == "tfield" and strip(strip(base)[1])[0] == "arg"))
+            kok = key[0] == "arg" or (key[0] == "tfield" and peel(key[1])[0] == "arg")
+            return bool(own and kok), recv, key
+        okr, recv2, key2 = judge(recv, key)
+        if not okr and strip(recv)[0] == "arg" and not b.j.get("pub") and b.kind != "Closure":
+            # the map itself is a parameter of a private helper (`fn parse_with_cached(i, templates: &HashMap<..>, id)`):
+            # judge the lookup at every call site of the helper, in the caller's terms
+            sites = [(cb, t2) for cb in prog.bodies.values() for _, t2, c2 in cb.calls() if c2 is not None and c2.local and c2.path == b.path and "parse_le" not in cb.path]
+            res = []
+            for cb, t2 in sites:
+                amap = {}
+                for i2, a2 in enumerate(t2["args"]):
+                    _, ex = an.lift(cb, an.op(cb, a2))
+                    amap[i2 + 1] = ex
+                res.append(judge(an.simp(an.interp.subst(recv, amap)), an.simp(an.interp.subst(key, amap))))
+            if res and all(x[0] for x in res):
+                okr, recv2, key2 = True, res[0][1], res[0][2]
+        ctx.ob("R6.3", b.path, "lookup:%s.%s" % (r["adt"].rsplit("::", 1)[1], r["field"]), okr,
+               "receiver = %s, key = %s" % (canon(recv2)[:120], canon(key2)[:120]), site=b.line(r["block"]))
 
     # R6.4
     write_bodies = set(w["body"].path for w in ca.writes)
